@@ -6,7 +6,7 @@ ID = "C03"
 THEOREMS = ["C03_iterator_total_and_shaped", "C03_commands_form_prefix", "C03_at_most_one_error_last", "C03_terminates",
             "C03_fused", "C03_parse_one_bounds", "C03_accessor_reads_in_bounds", "C03_unique_cids",
             "C03_frame_layout_in_bounds", "C03_join_lengths", "C03_command_lengths_match_lorawan",
-            "C03_fixed_constructor_view", "C03_mcgroupstatus_constructor_view", "C03_mcgroupstatus_constructor_refuses_short", "C03_constructor_matches_iterator"]
+            "C03_fixed_constructor_view", "C03_mcgroupstatus_constructor_view", "C03_mcgroupstatus_constructor_refuses_short", "C03_constructor_matches_iterator", "C03_channel_mask_constructor"]
 SETS = ["dl_mac", "ul_mac", "dl_dut", "ul_dut", "dl_mc", "ul_mc"]
 
 
@@ -131,6 +131,9 @@ def gen_new(rng, tier):
             lines.append("pl_new mcstatus %02x%02x" % (b0, b1))
         for ln in range(2, 24):
             lines.append("pl_new mcstatus %02x%s" % (b0, rng.bytes(ln).hex()))
+    for ln in range(0, 14):
+        for kind in ("chmask2", "chmask9"):
+            lines.append("pl_new %s %s" % (kind, rng.bytes(ln).hex() or "-"))
     for ln in range(0, 8):
         for _ in range(4):
             lines.append("pl_new linkadr %s" % (rng.bytes(ln).hex() or "-"))
@@ -145,6 +148,12 @@ def new_judge(case, impl, model):
     t = case.split()
     if impl in ("PANIC", "CRASH", "HANG"):
         return {"kind": "an accessor of a successfully constructed payload view panicked (or the constructor did)", "constructor": t[1]}
+    if t[1] in ("chmask2", "chmask9"):
+        d = bytes.fromhex(t[2]) if t[2] != "-" else b""
+        n = 2 if t[1] == "chmask2" else 9
+        want = "ERR" if len(d) < n else "OK " + d[:n].hex()
+        if impl != want:
+            return {"kind": "ChannelMask::new: not (refuse fewer than N bytes, else the first N bytes)", "spec_output": want}
     if t[1] == "mcstatus":
         d = bytes.fromhex(t[2]) if t[2] != "-" else b""
         if not d:
